@@ -13,21 +13,22 @@ pub fn coherent<P: Props + ?Sized>(p: &P, max_len: usize) {
     let qi: usize = kani::any();
     kani::assume(qi < POOL.len());
     let q = POOL[qi];
-    let mut first: Option<i32> = None;
+    // outer Option: was the key enumerated; inner: its first value as an i32 (None if it is not one)
+    let mut first: Option<Option<i32>> = None;
     let mut seen_q = 0u32;
     let mut total = 0usize;
     let _ = p.for_each(|k, v| {
         total += 1;
         if k.get() == q {
-            if first.is_none() { first = Some(v.by_ref().cast::<i32>().unwrap_or(-1)); }
+            if first.is_none() { first = Some(v.by_ref().cast::<i32>()); }
             seen_q += 1;
         }
         ControlFlow::Continue(())
     });
     assert!(total <= max_len);
-    let got = p.get(q).map(|v| v.cast::<i32>().unwrap_or(-1));
+    let got = p.get(q).map(|v| v.cast::<i32>());
     assert!(got == first, "get returns the first enumerated value for the key, or nothing");
-    assert!(p.pull::<i32, _>(q) == first.filter(|v| *v != -1), "pull agrees");
+    assert!(p.pull::<i32, _>(q) == first.flatten(), "pull agrees");
     if p.is_unique() { assert!(seen_q <= 1, "a collection that claims uniqueness never enumerates a key twice"); }
     let k: usize = kani::any();
     kani::assume(k >= 1 && k <= max_len + 1);
